@@ -259,6 +259,8 @@ var c11LinePool = []string{
 	"##.banner", "example.org##.ad", "example.org#@#.ad", "~a.com##.x", "example.org#$#body { color: red }",
 	"! comment", "# hosts comment", "#", "", " ", "\t", "||bad^$unknownmod", "@@", "||x^$domain=", "|", "*",
 	"||пример.рф^", "# комментарий ✓", "0.0.0.0 пример.рф", "a\x00b.com", "||nul\x00.example^", "\xff\xfe||bom.example^",
+	"||example.org^$domain=example.com|~example.net,unknownmodifier=1,third-party,script", // a long rejected line
+	"@@||example.org^$elemhide,popup,domain=example.com|example.net|example.org|a.com", // rejected: popup on an exception
 	"||example.org^$dnsrewrite=1.2.3.4", "||example.org^$client='Frank\\'s laptop'", "/regex[0-9]+/", "  ||trimmed.example^  ",
 }
 
